@@ -142,25 +142,25 @@ class PeekSlice(Terminal):
     def generate(self, gen: Builder, matched_var: str, pairs_var: str) -> None:
         """Emit Python code for a PEEK expression."""
         gen.writeln("# <PeekSlice>")
-
         pos = gen.new_temp("pos")
         gen.writeln(f"{pos} = state.pos")
+        gen.writeln(f"{matched_var} = True")
+
         peeked = gen.new_temp("peek")
         gen.writeln(f"for {peeked} in state.peek_slice({self.start}, {self.stop}):")
         with gen.block():
             gen.writeln(f"if state.input.startswith({peeked}, {pos}):")
             with gen.block():
                 gen.writeln(f"{pos} += len({peeked})")
-                gen.writeln(f"{matched_var} = True")
             gen.writeln("else:")
             with gen.block():
-                # TODO: test for failed PEEK slice
                 gen.writeln(f"{matched_var} = False")
                 gen.writeln(f"state.fail({peeked})")
                 gen.writeln("break")
 
-        gen.writeln(f"state.pos = {pos}")
-
+        gen.writeln(f"if {matched_var}:")
+        with gen.block():
+            gen.writeln(f"state.pos = {pos}")
         gen.writeln("# </PeekSlice>")
 
     def is_pure(self, rules: dict[str, Rule], seen: set[str] | None = None) -> bool:
@@ -347,9 +347,9 @@ class PopAll(Terminal):
     def generate(self, gen: Builder, matched_var: str, pairs_var: str) -> None:
         """Emit Python code for a POP_ALL expression."""
         gen.writeln("# <PopAll>")
-
         pos = gen.new_temp("pos")
         gen.writeln(f"{pos} = state.pos")
+        gen.writeln(f"{matched_var} = True")
 
         peeked = gen.new_temp("peek")
         gen.writeln(f"for {peeked} in reversed(state.user_stack):")
@@ -357,16 +357,16 @@ class PopAll(Terminal):
             gen.writeln(f"if state.input.startswith({peeked}, {pos}):")
             with gen.block():
                 gen.writeln(f"{pos} += len({peeked})")
-                gen.writeln(f"{matched_var} = True")
             gen.writeln("else:")
             with gen.block():
                 gen.writeln(f"{matched_var} = False")
                 gen.writeln(f"state.fail({peeked})")
                 gen.writeln("break")
 
-        gen.writeln("state.user_stack.clear()")
-        gen.writeln(f"state.pos = {pos}")
-
+        gen.writeln(f"if {matched_var}:")
+        with gen.block():
+            gen.writeln("state.user_stack.clear()")
+            gen.writeln(f"state.pos = {pos}")
         gen.writeln("# </PopAll>")
 
     def is_pure(self, rules: dict[str, Rule], seen: set[str] | None = None) -> bool:
